@@ -44,6 +44,9 @@ def make(c, stochastic):
     from common import undy
     return (Q.stochastic_binary(alpha=None, temperature=undy(c["temp"]), use_real_sigmoid=False) if stochastic
             else Q.binary(alpha=None))
+  if k == "relu_po2_leaky":        # the leaky branch takes the same options as the positive one
+    mv = 2.0 ** c["mvk"] if c["hasmv"] else None
+    return Q.quantized_relu_po2(c["bits"], max_value=mv, negative_slope=0.25, use_stochastic_rounding=stochastic)
   if k in ("po2_quad", "relu_po2_quad"):    # quadratic_approximation: only "inference = the deterministic configuration"
     mv = 2.0 ** c["mvk"] if c["hasmv"] else None
     ctor = Q.quantized_po2 if k == "po2_quad" else Q.quantized_relu_po2
@@ -54,7 +57,8 @@ def make(c, stochastic):
   if k == "stochastic_binary":
     return Q.stochastic_binary(alpha=alpha) if stochastic else Q.binary(alpha=alpha)
   if k == "stochastic_ternary":
-    return Q.stochastic_ternary(alpha=alpha) if stochastic else Q.ternary(alpha=alpha)
+    kw = {"number_of_unrolls": c["unrolls"]} if "unrolls" in c else {}
+    return Q.stochastic_ternary(alpha=alpha, **kw) if stochastic else Q.ternary(alpha=alpha, **kw)
   if k == "ternary_sr":
     return Q.ternary(alpha=alpha, use_stochastic_rounding=stochastic)
   raise ValueError(k)
@@ -65,7 +69,7 @@ def inputs(c, rnd, tier):
     x = cell_inputs(c, rnd, tier == "thorough" or c["bits"] <= 4)
     extra = f32([rnd.uniform(-3, 3) for _ in range(40)])
     return [np.concatenate([x[np.abs(x) < 1e5], extra])]
-  if c["fam"] == "po2" or c.get("kind", "").endswith("_quad"):
+  if c["fam"] == "po2" or c.get("kind", "").endswith("_quad") or c.get("kind") == "relu_po2_leaky":
     xs = []
     for k in range(-12, 10):
       for m in (1.0, 1.0625, 1.25, 1.5, 1.75, 1.9375):
